@@ -1109,6 +1109,10 @@ def fromFunction(func, interface=None, imlevel=0, name=None):
     method = Method(name, func.__doc__)
     defaults = getattr(func, '__defaults__', None) or ()
     code = func.__code__
+    if imlevel > code.co_argcount:
+        # A method without named positional parameters takes its instance
+        # through ``*args``; there is no leading name to drop.
+        imlevel = code.co_argcount
     # Number of positional arguments
     na = code.co_argcount - imlevel
     names = code.co_varnames[imlevel:]
